@@ -42,15 +42,23 @@ def case_strategy(draw):
     chunks = draw(st.sampled_from(['', '', '', '1', '3,1', '4096']))
     return d, api, ns, op, k, scanner_any, scanner_dtd, enc, chunks
 
+# warm-up documents: in 3 of 5 cases the parser object has parsed one of these before it sees the document under test (a parser is a re-usable
+# object; the verdict on a document must not depend on the previous one: XML version, DTD, entity and namespace state left behind)
+PRES = [None, None,
+        b'<?xml version="1.1"?><p:a xmlns:p="urn:p" xmlns="urn:d">\xc2\x85<b>&#1;</b></p:a>',
+        b'<!DOCTYPE a [<!ENTITY e "x"><!ENTITY lt2 "&#38;#60;"><!ATTLIST a k CDATA "d" xmlns:q CDATA "urn:q"><!ELEMENT a ANY>]><a>&e;<q:b xmlns:r="urn:r"/></a>',
+        b'<?xml version="1.1"?><a xmlns:p="urn:p"><p:b></a>']
 def mk_case(kind, api, scanner, ns, data, fbytes, chunks, op=None, preview=''):
     if scanner == 'SG': ns = True
+    pre = PRES[int(xv.sha([base64.b64encode(data).decode(), api, scanner])[:6], 16) % len(PRES)]
     feat = 'ns=%d;nsp=0;scanner=%s;val=0;loaddtd=1' % (ns, scanner)
     return {'kind': kind, 'api': api, 'feat': feat, 'chunks': chunks, 'chunk1': xm.safe_first_read(data), 'op': op,
             'doc_b64': base64.b64encode(data).decode(), 'files_b64': {k: base64.b64encode(v).decode() for k, v in fbytes.items()},
-            'doc_preview': preview[:300]}
+            'doc_preview': preview[:300], 'pre_b64': base64.b64encode(pre).decode() if pre else None}
 
 def run_case(case, ex):
     req = {'kind': 'parse', 'api': case['api'], 'feat': case['feat'], 'doc': base64.b64decode(case['doc_b64'])}
+    if case.get('pre_b64'): req['pre'] = base64.b64decode(case['pre_b64'])
     if case.get('chunks'): req['chunks'] = case['chunks']; req['chunk1'] = str(case.get('chunk1', 0))
     for k, v in case['files_b64'].items(): req['ent:' + k] = base64.b64decode(v)
     try:
@@ -93,7 +101,7 @@ def worker(ctx):
             # with namespaces on, a document generated without namespace discipline never contains colons, so it is namespace-well-formed too
             case = mk_case('pos', api, scanner, eff_ns, data, fbytes, chunks, preview=text)
             nt = bool(d.doctype or '&' in text or '<![CDATA[' in text or any(ord(ch) > 127 for ch in text) or 'xmlns' in text)
-            S.note(xv.sha([case['doc_b64'], api, case['feat']]), nt, ['pos', 'api:' + api, 'scanner:' + scanner, 'ns:%d' % eff_ns, 'v' + d.version])
+            S.note(xv.sha([case['doc_b64'], api, case['feat']]), nt, ['pos', 'api:' + api, 'scanner:' + scanner, 'ns:%d' % eff_ns, 'v' + d.version] + (['reused-parser'] if case.get('pre_b64') else []))
             S.sample({'kind': 'pos', 'api': api, 'feat': case['feat'], 'doc': text[:200]}, limit=2)
             ok, detail = run_case(case, ex)
             if not ok: raise PropertyFailure(case, detail)
@@ -122,7 +130,7 @@ def worker(ctx):
         mf = dict(fbytes)
         if op == 'ext-entity-in-attr': mf['xatt.ent'] = b'xx'
         case = mk_case('neg', api, mscanner, eff_ns, mdata, mf, chunks, op=op, preview=(mtext or repr(mdata[-200:])))
-        S.note(xv.sha([case['doc_b64'], api, case['feat']]), True, ['neg', 'op:' + op, 'opXscanner:%s:%s' % (op, mscanner), 'api:' + api])
+        S.note(xv.sha([case['doc_b64'], api, case['feat']]), True, ['neg', 'op:' + op, 'opXscanner:%s:%s' % (op, mscanner), 'api:' + api] + (['reused-parser'] if case.get('pre_b64') else []))
         S.sample({'kind': 'neg', 'op': op, 'api': api, 'feat': case['feat'], 'doc': (mtext or '')[:200]}, limit=4)
         ok, detail = run_case(case, ex)
         if not ok: raise PropertyFailure(case, detail)
